@@ -44,6 +44,9 @@ def check_agent(ctx: Ctx, case):
     mk = lambda: MABEpsilonGreedy(n, alpha, eps, initial_values=case["init"], random_state=case["seed"])  # noqa: E731
     with guard(ctx, "C19/exception", sub, case):
         a, twin = mk(), mk()
+        # a third agent constructed with ANOTHER seed: from the first re-seeding on (same seed, same rewards) it must agree too
+        other = MABEpsilonGreedy(n, alpha, eps, initial_values=case["init"], random_state=case["seed"] + 1)
+    reseeded = False
     q = [float(case["init"])] * n
     cnt = [0] * n
     n_learn = [0] * n
@@ -61,6 +64,10 @@ def check_agent(ctx: Ctx, case):
                 if not (isinstance(act, (int, np.integer)) and not isinstance(act, bool) and 0 <= act < n):
                     ctx.fail("C19/invalid-action", f"step {step}: policy returned {act!r} for {n} actions", sub, case)
                     return
+                if reseeded and other.policy(0) != act:
+                    ctx.fail("C19/nondeterministic-policy", f"step {step}: an agent constructed with another seed but re-seeded "
+                             "to the same value (and fed the same rewards) chose differently", sub, case)
+                    return
                 if act != act2:
                     ctx.fail("C19/nondeterministic-policy", f"step {step}: twin agents (same seed, same rewards) chose "
                              f"{act} and {act2}", sub, case)
@@ -74,6 +81,7 @@ def check_agent(ctx: Ctx, case):
                 before = list(a.Q)
                 a.learn(0, act, r, 0)
                 twin.learn(0, act, r, 0)
+                other.learn(0, act, r, 0)
                 cnt[act] += 1
                 stepsize = 1.0 / cnt[act] if alpha == -1 else alpha
                 q[act] = q[act] + stepsize * (r - q[act])
@@ -92,6 +100,8 @@ def check_agent(ctx: Ctx, case):
             else:
                 a.random_state = o[1]
                 twin.random_state = o[1]
+                other.random_state = o[1]
+                reseeded = True
 
 
 @st.composite
